@@ -550,7 +550,7 @@ func (g *gen) arrayProbe() {
 	b := &bufGen{et: et, tail: r.Intn(5), open: true}
 	g.bufs = append(g.bufs, b)
 	arr := func(s *srcSpec) {
-		s.Pipe = false
+		s.Pipe, s.Cap, s.Pace, s.Continue, s.NeverClose, s.Early = false, 0, 0, false, false, false
 		if len(s.Items) > 6 {
 			s.Items = s.Items[:r.Range(1, 6)]
 		}
@@ -588,6 +588,30 @@ func (g *gen) arrayProbe() {
 	if r.Prob(0.7) {
 		heads = g.copyN(probed, r.Range(2, 3))
 	}
+	further := func() int {
+		switch x := r.Intn(10); {
+		case x < 2 && len(wins) > 0:
+			i := r.Intn(len(wins))
+			id := wins[i]
+			wins = append(wins[:i], wins[i+1:]...)
+			return id
+		case x < 4:
+			return g.merge([]int{g.newSourceWith(et, arr), g.newSourceWith(et, arr)})
+		}
+		return g.newSourceWith(et, arr)
+	}
+	if len(heads) > 1 && r.Prob(0.2) {
+		// the sibling copies meet again in one merge, further array readers between them
+		var ins []int
+		for _, h := range heads {
+			ins = append(ins, h)
+			if r.Bool() {
+				ins = append(ins, further())
+			}
+		}
+		g.pool = append(g.pool, g.merge(ins))
+		heads = nil
+	}
 	for _, h := range heads {
 		if len(heads) > 1 && r.Prob(0.15) {
 			g.pool = append(g.pool, h) // a copy read on its own
@@ -595,16 +619,7 @@ func (g *gen) arrayProbe() {
 		}
 		ins := []int{h}
 		for k := r.Range(1, 3); k > 0; k-- {
-			switch x := r.Intn(10); {
-			case x < 2 && len(wins) > 0:
-				i := r.Intn(len(wins))
-				ins = append(ins, wins[i])
-				wins = append(wins[:i], wins[i+1:]...)
-			case x < 4:
-				ins = append(ins, g.merge([]int{g.newSourceWith(et, arr), g.newSourceWith(et, arr)}))
-			default:
-				ins = append(ins, g.newSourceWith(et, arr))
-			}
+			ins = append(ins, further())
 		}
 		if r.Prob(0.25) {
 			ins = append(ins, g.newSourceWith(et, func(s *srcSpec) { s.Pipe = true }))
